@@ -80,6 +80,9 @@ subscription's `quit`/`msgChan`. -/
 def Client.closeStream (c : Client) : Client :=
   if c.isOpen then { c.setCur (fun s => { s with alive := false }) with isOpen := false } else c
 
+/-- the server side of the newest stream ends with a transport error -/
+def Client.failStream (c : Client) : Client := c.setCur fun s => { s with alive := false }
+
 /-- how a handshake ended for the caller of `connectAndAuthenticate` -/
 inductive HsRes
   | ok
@@ -170,7 +173,7 @@ def Client.step (c : Client) : Op → Client × Ret
   | .errIdle =>
     if c.isOpen && c.cur.alive then
       -- reader: ErrServerErrored → switch (not diverted) → main handler
-      ((c.setCur fun s => { s with alive := false }).mainHandler .serverErrored, .none_)
+      (c.failStream.mainHandler .serverErrored, .none_)
     else (c, .none_)
   | .shutIdle =>
     if c.isOpen && c.cur.alive then (c.readerShutdown, .none_) else (c, .none_)
